@@ -164,7 +164,22 @@ func c17alphabet(full bool) []Choice {
 				cs = append(cs, txB(fmt.Sprintf("change(%s,by=k%d,new)", k, s), chain.TxSpec{Msg: "change_param", From: s, Key: k, Val: `"1"`}))
 			}
 		}
+		// keys with a third path element: no ACL entry names them, whoever owns their first two
+		// elements; the value is well formed for the parameter the last element names
+		for _, kv := range [][2]string{{"gov/upgrade/acl", vals["gov/acl"][0]}, {"auth/MaxMemoCharacters/TxSigLimit", vals["auth/TxSigLimit"][0]}, {"pos/MaxValidators/StakeMinimum", vals["pos/StakeMinimum"][0]}, {"pos/MaxValidators/MaxValidators", vals["pos/MaxValidators"][0]}} {
+			for _, s := range senders {
+				cs = append(cs, txB(fmt.Sprintf("change(%s,by=k%d,new)", kv[0], s), chain.TxSpec{Msg: "change_param", From: s, Key: kv[0], Val: kv[1]}))
+			}
+		}
 	}
+	// an ACL that lists a key twice with different addresses (accepted by ACL.Validate): everybody
+	// the list does not name for a key is still a stranger for it
+	dup := govTypes.ACL(make([]govTypes.ACLPair, 0))
+	for _, k := range chain.AllParamKeys {
+		dup.SetOwner(k, chain.Addr(gOwner))
+	}
+	dup = append(dup, govTypes.ACLPair{Key: "pos/StakeMinimum", Addr: chain.Addr(gStranger)}, govTypes.ACLPair{Key: "gov/acl", Addr: chain.Addr(gOwner2)})
+	cs = append(cs, txB(fmt.Sprintf("change(gov/acl,by=k%d,duplicated keys)", gOwner), chain.TxSpec{Msg: "change_param", From: gOwner, Key: "gov/acl", Val: mj(dup)}))
 	for _, s := range senders {
 		cs = append(cs, txB(fmt.Sprintf("upgrade(by=k%d)", s), chain.TxSpec{Msg: "upgrade", From: s, Height: 7000, Val: "3.0.0"}))
 	}
@@ -239,17 +254,35 @@ func RunGovHistory(cfg chain.Config, prelude, blocks []chain.Block) HistResult {
 			case "upgrade":
 				target = "gov/upgrade"
 			}
-			isOwner := target != "" && acl.GetOwner(target) != nil && string(acl.GetOwner(target)) == sender
+			// the addresses the stored list names for exactly this key (looked up here, not through the
+			// repository's ACL.GetOwner). A list naming two different addresses for one key is accepted
+			// by ACL.Validate; the statement presupposes one owner, so for such a key a message from one
+			// of the named addresses is not judged for authorisation (everybody else still is).
+			named := map[string]bool{}
+			var firstNamed sdk.Address
+			for _, pair := range acl {
+				if pair.Key == target && target != "" && pair.Addr != nil {
+					if len(named) == 0 {
+						firstNamed = pair.Addr
+					}
+					named[string(pair.Addr)] = true
+				}
+			}
+			isOwner := named[sender]
+			ambiguous := isOwner && len(named) > 1
 			role := "stranger"
 			if isOwner {
 				role = "owner"
+			}
+			if ambiguous {
+				role = "one-of-several-named-owners"
 			}
 			for _, k := range changed {
 				switch {
 				case k != target:
 					report(fmt.Sprintf("%s|other-parameter-changed|by-%s", t.Msg, role), fmt.Sprintf("%s at height %d changed parameter %s (target %q)", t, dd.Height+1, k, target))
 				case !isOwner:
-					report(fmt.Sprintf("%s|changed-by-non-owner", t.Msg), fmt.Sprintf("%s at height %d changed %s but the ACL owner of that key is %X", t, dd.Height+1, k, acl.GetOwner(target)))
+					report(fmt.Sprintf("%s|changed-by-non-owner", t.Msg), fmt.Sprintf("%s at height %d changed %s but the ACL owner of that key is %X", t, dd.Height+1, k, firstNamed))
 				case !ok:
 					report(fmt.Sprintf("%s|changed-but-result-not-ok", t.Msg), fmt.Sprintf("%s at height %d changed %s but returned code %d", t, dd.Height+1, k, tr.Code))
 				}
@@ -376,7 +409,7 @@ func init() {
 		Run: func(sc *Scenario, blocks []chain.Block) HistResult {
 			return RunGovHistory(sc.Cfg, sc.Prelude, blocks)
 		},
-		Rule:   "matrix (depth 1): every parameter key (17 registered + 5 unregistered/ill-formed) x sender (owner, owner of another parameter, DAO owner, stranger) x value (new, identical, malformed JSON, wrong type, empty), MsgUpgrade x sender, DAO transfer/burn/unknown action x sender x amount (-1, 0, 1, balance, balance+1); hand-over histories (depth 2-3): all pairs/triples of these transactions in consecutive blocks (ACL and DAO ownership change hands in between); non-trivial = a governance message succeeded",
+		Rule:   "matrix (depth 1): every parameter key (17 registered + 5 unregistered/ill-formed + 4 with a third path element) x sender (owner, owner of another parameter, DAO owner, stranger) x value (new, identical, malformed JSON, wrong type, empty), MsgUpgrade x sender, DAO transfer/burn/unknown action x sender x amount (-1, 0, 1, balance, balance+1); hand-over histories (depth 2-3): all pairs/triples of these transactions in consecutive blocks (ACL and DAO ownership change hands in between); non-trivial = a governance message succeeded",
 		QuickS: 240, ThoroughS: 1500,
 		Assume: []string{"the oracle reads the ACL and DAO owner from the raw params store before each message", "a chain halt caused by an authorised but ill-advised parameter value is not an authorisation failure and ends the history without a verdict"},
 	})
